@@ -55,6 +55,12 @@ def scenarios(vh, relic, t):
     # the commit itself fails (the output path is a directory, rename cannot replace it): handled error, no temp left
     S.append(Scenario("d-rewrite-destdir", "driver", drv("rewrite"), "dummy.apk", "outdir.bin", expect_fail=True, setup="destdir"))
     S.append(Scenario("d-msi-destdir", "driver", drv("msi"), "dummy.msi", "outdir.msi", expect_fail=True, setup="destdir"))
+    # the output path is a symbolic link (to a complete file / to nothing): the path must still change atomically
+    S.append(Scenario("d-whole-symlink", "driver", drv("whole"), "hello.jar", "link.bin", expected_fn=lambda o: new_content(100000), setup="symlink"))
+    S.append(Scenario("d-whole-dangling", "driver", drv("whole"), "hello.jar", "link.bin", expected_fn=lambda o: new_content(100000), setup="dangling"))
+    # a response that is not a signature: handled error, destination untouched
+    S.append(Scenario("d-pgp-clearsign-bad", "driver", drv("pgp-clearsign-bad"), "Release", "InRelease", expect_fail=True))
+    S.append(Scenario("d-pgp-inline-bad", "driver", drv("pgp-inline-bad"), "Release", "Release.gpg", expect_fail=True))
     sign = lambda extra=[]: (lambda conf, i, o: [relic, "-c", conf, "sign", "-k", "rsa2048", "-f", i, "-o", o] + extra)
     ver = lambda p: relicenv.verify(relic, p)[0]
     S.append(Scenario("b-jar", "binary", sign(), "hello.jar", "out.jar", verify=ver))
@@ -97,6 +103,13 @@ class Env:
             self.old = None
             if sc.setup == "destdir":
                 os.makedirs(os.path.join(self.dest, "keep"))
+            elif sc.setup in ("symlink", "dangling"):
+                target = os.path.join(self.dir, "link-target.bin")
+                if sc.setup == "symlink" and dest_existed:
+                    self.old = OLD
+                    with open(target, "wb") as f:
+                        f.write(OLD)
+                os.symlink(target, self.dest)
             elif dest_existed and os.path.isdir(os.path.dirname(self.dest)):
                 self.old = OLD
                 with open(self.dest, "wb") as f:
@@ -129,6 +142,15 @@ def baseline(run, sc, dest_existed, traces, expected_new):
         calls, killed = stracefs.parse(env.log)
         evs = stracefs.events(calls, env.dest, None if sc.same else env.inp)
         ok = (r.returncode == 0)
+        if ok and sc.expect_fail:
+            # the operation cannot succeed (unwritable destination / a response that is not a signature): success means the
+            # error was swallowed, and whatever is at the destination now is not a complete result
+            final_ = read(env.dest) if not os.path.isdir(env.dest) else None
+            run.violation({"engine": "outputfs-end", "scenario": sc.name, "state": "error-swallowed"},
+                          f"{sc.name}/{'existing' if dest_existed else 'absent'}: exit status 0 for an operation that cannot succeed; the destination "
+                          f"now holds {('%d bytes' % len(final_)) if final_ is not None else 'no file'}"
+                          f"{' (the previous content is gone)' if env.old is not None and final_ != env.old else ''}", {"argv": env.argv})
+            return None, None
         if ok == sc.expect_fail:
             raise NoVerdict(f"scenario {sc.name}: unexpected exit status {r.returncode}: {r.stderr[-500:]}")
         label = f"{sc.name}/{'existing' if dest_existed else 'absent'}"
@@ -264,6 +286,8 @@ def run(t):
     for sc in scs:
         for de in ([True] if sc.same else [True, False]):
             evs, calls = baseline(run, sc, de, traces, expected_new)
+            if evs is None:
+                continue
             points[(sc.name, de)] = (crash_points(calls, evs), len(evs))
     nvalid = validate(run, traces)
     run.cov["traces_validated_against_impl"] = nvalid
